@@ -286,8 +286,15 @@ def run_c02(job):
             with watchdog(20.0):
                 out.append(rig.run_case(case))
         except BaseException as e:  # noqa
-            out.append(dict(harness_error=f"{type(e).__name__}: {e}", tb=traceback.format_exc()[-600:]))
-            if not rig.alive():
+            signal.setitimer(signal.ITIMER_REAL, 0)
+            try:                          # a crashing manager needs a moment to exit
+                rig.proc.wait(1.5)
+            except Exception:
+                pass
+            died = not rig.alive()
+            out.append(dict(harness_error=f"{type(e).__name__}: {e}", tb=traceback.format_exc()[-600:],
+                            manager_died=died))
+            if died:                      # the manager process exited: an observation, not a harness problem
                 rig.close()
                 rig = C02Rig(job["universe"])
     rig.close()
